@@ -29,7 +29,7 @@ type View struct {
 	Classes    []string
 	VendorFs   map[string][]string
 	VendorPP   map[string][]string // vendor -> sorted "path|priority|vendor|class|spec-marker" of every Spec GetVendorSpecs returns
-	SpecErrN   map[string]int      // path -> number of errors GetSpecErrors reports for that Spec
+	SpecErrs   map[string]string   // path -> the errors GetSpecErrors reports for that Spec, joined like Errs
 	ErrKeys    []string
 	Errs       map[string]string
 	RefreshErr string
@@ -66,7 +66,7 @@ func markerOf(env []string) string {
 
 // Query reads everything observable from the cache (to be called inside a task).
 func Query(c *cdi.Cache, probe []string) *View {
-	v := &View{Dev: map[string]DevView{}, VendorFs: map[string][]string{}, Errs: map[string]string{}, VendorPP: map[string][]string{}, SpecErrN: map[string]int{}}
+	v := &View{Dev: map[string]DevView{}, VendorFs: map[string][]string{}, Errs: map[string]string{}, VendorPP: map[string][]string{}, SpecErrs: map[string]string{}}
 	v.Devices = c.ListDevices()
 	names := map[string]bool{}
 	for _, n := range v.Devices {
@@ -92,7 +92,15 @@ func Query(c *cdi.Cache, probe []string) *View {
 		for _, s := range c.GetVendorSpecs(vn) {
 			set[s.GetPath()] = true
 			pp[fmt.Sprintf("%s|%d|%s|%s|%s", s.GetPath(), s.GetPriority(), s.GetVendor(), s.GetClass(), specMarkerOf(s.ContainerEdits.Env))] = true
-			v.SpecErrN[s.GetPath()] = len(c.GetSpecErrors(s))
+			var parts []string
+			for _, e := range c.GetSpecErrors(s) {
+				if e == nil {
+					parts = append(parts, "<nil error>")
+				} else {
+					parts = append(parts, e.Error())
+				}
+			}
+			v.SpecErrs[s.GetPath()] = strings.Join(parts, "; ")
 		}
 		v.VendorFs[vn] = sortedKeys(set)
 		v.VendorPP[vn] = sortedKeys(pp)
@@ -110,6 +118,15 @@ func Query(c *cdi.Cache, probe []string) *View {
 }
 
 func sortedKeys(m map[string]bool) []string {
+	out := make([]string, 0, len(m))
+	for k := range m {
+		out = append(out, k)
+	}
+	sort.Strings(out)
+	return out
+}
+
+func sortedKeysS(m map[string]string) []string {
 	out := make([]string, 0, len(m))
 	for k := range m {
 		out = append(out, k)
@@ -138,6 +155,12 @@ type CheckOpts struct {
 	TolPaths   map[string]bool        // Spec paths whose error entry may be present or absent
 	DirKeys    map[string]bool        // keys of GetErrors that are directory entries (allowed)
 	MayErr     func(path string) bool // further paths that may have an error entry
+	// TornPaths: Spec files another process modified IN PLACE (write, truncate)
+	// while the scan was reading them, with their priority.  What the scan read
+	// may be any mixture of the old and the new bytes, which the model cannot
+	// know: whatever resolves to such a file is tolerated, and so is a name of
+	// equal or lower priority that the unknown content may shadow or conflict with.
+	TornPaths map[string]int
 }
 
 func without(xs []string, drop map[string]bool) []string {
@@ -159,6 +182,29 @@ func CompareTruth(v *View, t *model.Truth, o CheckOpts) (rule, sig, msg string) 
 		wantNames = append(wantNames, q)
 	}
 	sort.Strings(wantNames)
+	if len(o.TornPaths) > 0 {
+		tol := map[string]bool{}
+		for q := range o.TolNames {
+			tol[q] = true
+		}
+		maxPrio := -1
+		for _, p := range o.TornPaths {
+			if p > maxPrio {
+				maxPrio = p
+			}
+		}
+		for q, dv := range v.Dev {
+			if _, torn := o.TornPaths[dv.Path]; torn && !dv.Nil {
+				tol[q] = true
+			}
+		}
+		for q, w := range want {
+			if dv, ok := v.Dev[q]; w.Prio <= maxPrio && (!ok || dv.Nil || dv.Path != w.Path) {
+				tol[q] = true
+			}
+		}
+		o.TolNames = tol
+	}
 	for _, q := range without(wantNames, o.TolNames) {
 		w := want[q]
 		dv, ok := v.Dev[q]
@@ -214,6 +260,15 @@ func CompareTruth(v *View, t *model.Truth, o CheckOpts) (rule, sig, msg string) 
 		}
 	}
 	if !o.SkipErrors {
+		// GetSpecErrors(spec) is the per-Spec view of the same report
+		for _, path := range sortedKeysS(v.SpecErrs) {
+			if o.TolPaths[path] {
+				continue
+			}
+			if v.SpecErrs[path] != v.Errs[path] {
+				return "errors", "per-spec-report-differs", fmt.Sprintf("%s: GetSpecErrors(%s) = [%s] but GetErrors()[%s] = [%s]", o.Where, path, v.SpecErrs[path], path, v.Errs[path])
+			}
+		}
 		must := t.MustErr()
 		may := t.ConflictParticipants()
 		have := map[string]bool{}
